@@ -254,6 +254,11 @@ class C09(Check):
             for dv in (("Level", "HIGH"), ("ns.Level", "HIGH"), ("Id", b"ab"), ("deep.ns.Id", b"cd"), ("Level", "LOW")):
                 for opts in (0, 1):
                     yield dict(base, schema=ens, datum=dv, parsed=parsed, opts=opts)
+        # branch positions that need a two-byte index
+        big = ["null"] + [{"type": "record", "name": f"R{i}", "fields": [{"name": f"f{i}", "type": "int"}]} for i in range(1, 140)]
+        for i in (1, 62, 63, 64, 65, 99, 127, 128, 139):
+            yield dict(base, schema=big, datum={f"f{i}": i})
+            yield dict(base, schema=big, datum=(f"R{i}", {f"f{i}": 0}), opts=1)
         # disable_tuple_notation: a 2-tuple that looks like a hint is array data
         sa = ["string", {"type": "array", "items": "string"}]
         yield dict(base, schema=sa, datum=("string", "x"), tuple_notation=False)
